@@ -707,10 +707,20 @@ func (v *fnVC) goStmt(i *ssa.Go, st *State) {
 	// No interleaving semantics: the spawned call is not executed here. Its
 	// precondition (if it has a contract) is still an obligation at this site.
 	c := i.Common()
-	if fn, ok := c.Value.(*ssa.Function); ok {
+	fn, ok := c.Value.(*ssa.Function)
+	var pre []*T
+	var preNames []string
+	if mc, isClo := c.Value.(*ssa.MakeClosure); isClo {
+		fn, ok = mc.Fn.(*ssa.Function), true
+		for k, b := range mc.Bindings {
+			pre = append(pre, v.val(b))
+			preNames = append(preNames, fn.FreeVars[k].Name())
+		}
+	}
+	if ok {
 		if ct := v.w.specs.Contracts[funcKey(fn)]; ct != nil {
-			var args []*T
-			var names []string
+			args := pre
+			names := preNames
 			for k, a := range c.Args {
 				args = append(args, v.val(a))
 				if k < len(fn.Params) {
